@@ -1,5 +1,6 @@
 """C08 — execution contexts are typed field maps bound to one scheme."""
 from lib import *
+import sem
 import common
 
 LEVEL = "other"
@@ -520,32 +521,22 @@ def rule_elems(E, R):
             vt = f.get("val_type", {})
             vts = strip(vt)
             if fn.endswith("::try_from_vec"):
-                pre = preceding_stmts(hb["body"], s) or []
-                adopted = None
-                for p_ in exprs(f.get("data", {}), "Path"):
-                    if local_name(p_):
-                        adopted = local_name(p_)
+                S = sem.Sem(E, hb)
+                site = [x for x in S.sites() if x.node is s]
+                adopted = sem.provenance(S, f.get("data", {}), S.root)[0] if f.get("data") else None
                 ok = False
-                for st in pre:
-                    for m in exprs(st, "Match", into_closures=False):
-                        if m.get("src") != "ForLoopDesugar":
+                if site and adopted is not None:
+                    for b_, ms, test, fr in sem.whole_collection_checks(S, site[0].pc):
+                        if b_ is not adopted or chain_verdict([{"m": x} for x in ms], terminal_ok=()) != "ok":
                             continue
-                        sc = strip(m["scrut"])
-                        if not (sc.get("k") == "Call" and norm(sc.get("callee", "")).endswith("IntoIterator::into_iter")):
-                            continue
-                        if local_name(chain(sc["args"][0])[0]) != adopted or chain(sc["args"][0])[1]:
-                            continue
-                        user_exits = [b for b in exprs(m, ("Break", "Continue")) if not b.get("x")]
-                        checks = [i for i in exprs(m, "If") if explicit_type_check(i)]
-                        # the checked value is the loop variable
-                        loopvars = set()
-                        for a_ in exprs(m, "Match"):
-                            if a_.get("src") == "ForLoopDesugar" and a_ is not m:
-                                for arm in a_["arms"]:
-                                    loopvars |= set(pat_bindings(arm["pat"]))
-                        uses_var = any(local_name(x["recv"]) in loopvars for c_ in checks for x in
-                                       exprs(m, "MethodCall") if x["m"] == "get_type")
-                        ok = ok or (bool(checks) and not user_exits and uses_var)
+                        if test[0] == "formula":
+                            cmps = [(op, l, r) for op, l, r, _, _ in sem.weak_cmps(((test[1], True),))]
+                        else:
+                            cmps = [(x["op"], x["l"], x["r"]) for x in exprs(test[1], "Binary") if x["op"] in ("Eq", "Ne")]
+                        for op, l, r in cmps:
+                            tys = {norm(l.get("ty", "")).lstrip("&"), norm(r.get("ty", "")).lstrip("&")}
+                            if tys <= {"types::Type", "types::CompoundType"} and op in ("Eq", "Ne"):
+                                ok = True
                 R.check(ok, rule, fn, "every element of the adopted vector is compared with val_type (loop over the whole vector)",
                         "checking only some elements lets a heterogeneous array be built", s["sp"])
     R.floor(rule, "Array/Map literals", lit_n, 10)
